@@ -185,6 +185,21 @@ def fixed():
     t.files['lib/b.inc'] = ['ret']
     ws.append(('directory_of_included_file_not_searched_afterwards', t.job('main.asm'), ('err_naming', 'b.inc')))
 
+    # a relative .includepath is resolved against the directory of the file it is in and nowhere else: a directory of the same name under
+    # the working directory (the root of the tree) is not a documented place
+    t = Tree()
+    t.files['proj/main.asm'] = ['.includepath "inc"', '.include "x.inc"', 'ret']
+    t.files['inc/x.inc'] = ['ldi r16, 12']
+    ws.append(('relative_includepath_not_resolved_against_working_directory', t.job('proj/main.asm'), ('err_naming', 'x.inc')))
+
+    # the directory of the including file is the directory of the name it was included under, also when that name is a symbolic link
+    t = Tree()
+    t.files['proj/main.asm'] = ['.include "lib/b.inc"', 'ret']
+    t.files['shared/b.inc'] = ['ldi r16, 13', '.include "c.inc"']
+    t.files['proj/lib/c.inc'] = ['ldi r17, 14']
+    t.files['proj/lib/b.inc -> ../../shared/b.inc'] = []
+    ws.append(('including_file_reached_through_a_symbolic_link', t.job('proj/main.asm'), ('same_as', 'ldi r16, 13\nldi r17, 14\nret\n')))
+
     t = Tree()
     t.files['main.asm'] = ['nop', '.include "main.asm"']
     ws.append(('file_including_itself_fails_without_crash', t.job('main.asm'), ('err',)))
